@@ -35,3 +35,6 @@ META = {
   "technique": "runtime monitor: element/termination comparison against a "
                "list interpreter; pull-counting probes for lazy inputs",
 }
+
+# EXTENSION families added after the seeded-change rounds
+META["rule"] += (" Added after the seeded-change rounds: " 'operators applied repeatedly to ONE reusable operand (ControlStream) with direct reads in between; Stream-subclass operands (thub, ControlStream); secondary operands (log base, midi2str sharp) positional and by keyword' ".")
